@@ -8,6 +8,7 @@ package props
 
 import (
 	"fmt"
+	"math/big"
 	"sort"
 	"strings"
 	"sync"
@@ -108,9 +109,28 @@ func TestC12Conflicts(t *testing.T) {
 					results[i], errs[i] = d.s.UpdateNodePeers(p.id, p.report, 7)
 				}()
 			}
+			// ... and each node is credited once meanwhile (its first credit: no balance record yet); the credit's
+			// transaction reads the node record the writers keep rewriting
+			credErrs := make([]error, len(plans))
+			for i, p := range plans {
+				uwg.Add(1)
+				go func() {
+					defer uwg.Done()
+					credErrs[i] = d.s.AddNodeBalance(p.id, big.NewInt(int64(1000+i)))
+				}()
+			}
 			uwg.Wait()
 			close(stop)
 			wg.Wait()
+			for i, p := range plans {
+				if credErrs[i] != nil {
+					rt.Fatalf("%s: AddNodeBalance(%s): %v", d.name, p.id, credErrs[i])
+				}
+				b, err := d.s.GetNodeBalance(p.id)
+				if err != nil || b.Credit.Cmp(big.NewInt(int64(1000+i))) != 0 {
+					rt.Fatalf("%s: %s was credited %d once while %d writers rewrote its record; its balance is %s (err=%v) - a credit applied once per attempt of a re-run transaction?", d.name, p.id, 1000+i, writers, b.Credit.String(), err)
+				}
+			}
 			vt.Tick("C12 conflicts " + d.name)
 			for i, p := range plans {
 				if errs[i] != nil {
